@@ -72,6 +72,13 @@ def generate(rng, tier, idx):
         sc['canonical'] = '%016x' % rng.getrandbits(64)
     else:
         sc = GU.gen_history(rng)
+        if rng.random() < 0.25:
+            # fault: one removal of a superseded Manifest file (after a re-compression) fails.  The update may refuse; if it
+            # reports success, the tree it leaves must still be a fixed point of update
+            sc['unlink_fault'] = {'pick': rng.getrandbits(30), 'errno': rng.choice(['EPERM', 'EBUSY', 'EIO', 'EACCES'])}
+            for r in sc['rounds']:
+                if 'watermark' not in r['update'] and 'wm_of' not in r['update'] and not r['update'].get('reuse') and rng.random() < 0.6:
+                    r['update']['watermark'] = rng.choice([0, 0, 100000])
     sc['prop'] = ID
     return sc
 
@@ -81,7 +88,15 @@ def _perm(lst, key):
 
 
 def execute(sc):
-    h = run_history(sc, want_idempotence=True)
+    faults = None
+    if sc.get('unlink_fault'):
+        h0 = run_history(copy.deepcopy(sc), want_idempotence=True)
+        un = [n for (n, kind, rel, outcome) in h0['seams'][0].events if kind == 'unlink']
+        if un:
+            faults = [{'at': un[sc['unlink_fault']['pick'] % len(un)], 'errno': sc['unlink_fault']['errno']}]
+    h = run_history(sc, want_idempotence=True, faults=faults)
+    if faults and sum(f_.get('_fired', 0) for f_ in h['seams'][0].faults):
+        h['counters']['histories_with_a_failing_unlink'] = 1
     vs = [v for v in h['violations'] if v['clause'].split('.')[0] in FAMILIES]
     c = dict(h['counters'])
     seams = list(h['seams'])
